@@ -1,4 +1,58 @@
-(* placeholder *)
-From Coq Require Import ZArith.
-Theorem C04_placeholder : True. Proof. exact I. Qed.
-Print Assumptions C04_placeholder.
+(* C04 -- compression never changes the meaning.  Statements only.
+   criteria / construction / pred_sem are GENERATED from transform_compressible (Gen/Criteria.v); encode calls the GENERATED
+   encoders; decode16 / expand_c / decode32 are the Spec. *)
+From Coq Require Import ZArith List String.
+From BB Require Import Base.PyBase Gen.Encoders Gen.Criteria Spec.RV32 Spec.RVC Spec.Operands Spec.Legal
+  Model.Items Model.Encode Model.Passes Proofs.Layout Proofs.Pipeline Proofs.Rules Proofs.RulesMain Proofs.Stable.
+Import ListNotations.
+Open Scope Z_scope.
+
+(* Rule soundness.  Whatever rule the generated first-match selection picks for an item (any register spelling; ANY
+   integer immediate; the item has no fields beyond those of its mnemonic), the numeric view of the item passes
+   rule_check: the compressed operands built by the generated construction row are LEGAL and name a compressed
+   instruction whose Spec expansion has the same meaning as the 32-bit instruction the operands name
+   (equal, or `add rd, x0, rs` for `addi rd, rs, 0`).  29 rules: symbolic reduction to the rule's operand box +
+   in-kernel sweep of every box. *)
+Theorem C04_rule_sound :
+  forall i r, select_rule criteria i = Ok (Some r) -> wf_view (nview_of i) -> rule_check (nview_of i) r = true.
+Proof. exact rule_sound_item. Qed.
+Print Assumptions C04_rule_sound.
+
+(* ... and through the generated encoders: the compressed encoder ACCEPTS these operands, the halfword is a legal
+   non-hint RV32C encoding (decode16), and for every word the 32-bit encoder returns for the original operands the
+   decoded instruction has the same meaning as the expansion of the halfword. *)
+Theorem C04_rule_encodes :
+  forall v r, rule_check v r = true ->
+  exists fs final cls cfs h c,
+    orig_fields (nv_name v) = Some fs /\ assoc_str r construction = Some (final, cls, cfs) /\
+    encode final (pos16_of v cfs) [] = Ok h /\ 0 <= h < 2^16 /\ decode16 h = Some c /\
+    forall w, In (nv_name v) base_mnemonics -> encode (nv_name v) (pos32_of v fs) [] = Ok w ->
+      exists ins, decode32 w = Some ins /\ equiv_b (expand_c c) ins = true.
+Proof. exact rule_encodes. Qed.
+Print Assumptions C04_rule_encodes.
+
+(* a register operand reaches the encoders only through its number: the numeric views speak for every spelling *)
+Theorem C04_spelling : forall a n, regnum a = Some n ->
+  read_op KReg a = read_op KReg (AInt n) /\ read_cop CReg a = read_cop CReg (AInt n).
+Proof. exact read_reg_spelling. Qed.
+Print Assumptions C04_spelling.
+
+(* a rule is consulted only when the immediate it tests can no longer change (or is the distance from a jump / branch
+   to a label): the value the rule saw is the value finally encoded *)
+Theorem C04_decided_on_final_value : forall l pos consts cls fs e,
+  field_get "imm" fs = Some (FExpr e) -> imm_unstable l pos consts cls fs = Done false ->
+  jump_to_label consts cls e \/ exists v, forall pos' labels, eval_here l pos' consts labels e = Done v.
+Proof. exact compress_decides_on_settled. Qed.
+Print Assumptions C04_decided_on_final_value.
+
+(* everything that is not code is untouched by the compression passes: data items, aligns, labels are kept as they are
+   (Rkeep), so their bytes are the same in both modes; pc-relative immediates are retargeted because they are
+   evaluated after the layout is final (C08_final, C03_*_lands) *)
+Theorem C04_data_untouched :
+  forall its consts0 labels0 compress r,
+    assemble_items its consts0 labels0 compress = Done r -> nonneg its -> NoDup (gnames its) -> layout_facts its r.
+Proof. exact pipeline_layout. Qed.
+Print Assumptions C04_data_untouched.
+
+Example C04_example : select_num criteria ex_view = Some "c.addi"%string /\ wf_view ex_view /\ regs_ok ex_view.
+Proof. exact ex_view_selected. Qed.
